@@ -211,6 +211,44 @@ def run(m: Model, r: Report, tier: str) -> None:
         isinstance(busy[0].body[0].body[0], ast.Return) and ast.unparse(busy[0].body[0].body[0].value) == RESP
     r.check(okb, "R4", f"{fn.qualname}#busy-last-attempt", "busyRepeatRequest on the last attempt must be returned to the caller", loc=fn.loc)
 
+    # pending-loop condition and exits
+    wt = WHILE.test
+    ok_w = isinstance(wt, ast.BoolOp) and isinstance(wt.op, ast.And) and len(wt.values) == 2 and \
+        ast.unparse(wt.values[0]) == f"isinstance({RESP}, service.NegativeResponse)" and isinstance(wt.values[1], ast.Compare) and \
+        isinstance(wt.values[1].ops[0], ast.Eq) and ast.unparse(wt.values[1]).replace(" ", "") == f"{RESP}.response_code==UDSErrorCodes.requestCorrectlyReceivedResponsePending"
+    r.check(ok_w, "R2", f"{fn.qualname}#pending-condition",
+            f"the pending loop runs while `{ast.unparse(wt)}`; it must run exactly while the reply is a negative response with code responsePending", loc=fn.loc)
+    r.check(len(WHILE.orelse) == 1 and isinstance(WHILE.orelse[0], ast.Return) and ast.unparse(WHILE.orelse[0].value) == RESP, "R5", f"{fn.qualname}#final-reply-returned",
+            "when the loop condition becomes false (a final reply arrived) that reply must be returned (while ... else: return)", loc=fn.loc)
+    wbreaks = [n for n in ast.walk(WHILE) if isinstance(n, ast.Break)]
+    okb2 = len(wbreaks) == 1
+    if okb2:
+        anc = ancestors(wbreaks[0], par)
+        lim_if = next((a for a in anc if isinstance(a, ast.If)), None)
+        okb2 = lim_if is not None and isinstance(lim_if.test, ast.Compare) and ast.unparse(lim_if.test.left) in counters and \
+            any(isinstance(s_, ast.Assign) and "MissingResponse(" in ast.unparse(s_.value) for s_ in lim_if.body)
+    r.check(okb2, "R2", f"{fn.qualname}#pending-loop-exit",
+            "the pending loop may only be left early (break -> next attempt) when the silent-poll limit is reached and the terminal MissingResponse is recorded; "
+            "any other break retransmits the request while the ECU is still processing it", loc=fn.loc)
+    wto = [n for n in ast.walk(WHILE) if isinstance(n, ast.ExceptHandler) and n.type is not None and ast.unparse(n.type) == "TimeoutError"]
+    r.check(len(wto) == 1 and isinstance(wto[0].body[-1], ast.Continue), "R2", f"{fn.qualname}#silent-poll-continues",
+            "a silent poll below the limit must continue polling (no retransmission)", loc=fn.loc)
+    raises_in_while = [n for n in ast.walk(WHILE) if isinstance(n, ast.Raise) and n.exc is not None]
+    r.check(all("BrokenPipeError" in ast.unparse(x) or "RuntimeError" in ast.unparse(x) for x in raises_in_while) and
+            any("RuntimeError" in ast.unparse(x) for x in raises_in_while), "R2", f"{fn.qualname}#pending-limit-raises",
+            "reaching the limit of received pendings must end the request with an error", loc=fn.loc)
+    # busy branch atoms
+    if len(busy) == 1:
+        bt = busy[0].test
+        outer = next((a for a in ancestors(busy[0], par) if isinstance(a, ast.If)), None)
+        okbz = isinstance(bt, ast.Compare) and isinstance(bt.ops[0], ast.Eq) and outer is not None and \
+            ast.unparse(outer.test) == f"isinstance({RESP}, service.NegativeResponse)"
+        if isinstance(bt, ast.BoolOp):
+            okbz = isinstance(bt.op, ast.And) and any(isinstance(v, ast.Compare) and isinstance(v.ops[0], ast.Eq) and "busyRepeatRequest" in ast.unparse(v) for v in bt.values)
+        r.check(okbz, "R4", f"{fn.qualname}#busy-condition", f"busy branch condition `{ast.unparse(bt)}` must be an equality test on a negative response", loc=fn.loc)
+        okcont = isinstance(busy[0].body[-1], ast.Continue)
+        r.check(okcont, "R4", f"{fn.qualname}#busy-retries", "busyRepeatRequest before the last attempt must start the next attempt", loc=fn.loc)
+
     # ---------------------------------------------------------------- R5
     r.check(len(rnames) == 1 and None not in rnames, "R5", f"{fn.qualname}#returns",
             f"returns {sorted(map(str, rnames))}: every return must yield the parsed reply variable", loc=fn.loc)
